@@ -475,6 +475,15 @@ class RecorderDomain(Domain):
         return state
 
     def call_result(self, node, t, args, kwargs, state):
+        r = self._call_result(node, t, args, kwargs, state)
+        if r is not None and not r.deps and r.kind == 'obj':
+            deps = {'call:' + t.label}
+            for a in list(args) + list(kwargs.values()):
+                deps |= set(a.deps)
+            r = r._replace(deps=frozenset(deps))
+        return r
+
+    def _call_result(self, node, t, args, kwargs, state):
         lab = t.label
         c = node.ast
         if lab == 'iface:TapeCassette.create_new_recording':
